@@ -646,7 +646,9 @@ def oracle(ctx):
     for _ in range(ctx.scale(140, 4000)):
         texts.append((rich_text(ctx.rng), "rich"))
     fixed = ["<!DO", "a\r\nb", "\r\n", "a\rb\r\rc", "<p>\r\n<!-x>\r\n</q>", "x\x01y</z>", "<!-\r\n-x", "\U0001F600\r\n\U00010000",
-             "<a\r\n\r\nb=c>", "&am\r\n", "<![CDATA[\r\n]]>", "\r", "\n\r", "𐀀", "<!--\r\n--!>", "</\r\n>"]
+             "<a\r\n\r\nb=c>", "&am\r\n", "<![CDATA[\r\n]]>", "\r", "\n\r", "𐀀", "<!--\r\n--!>", "</\r\n>",
+             # a lone-CR read followed by a read that ENDS in CR, the LF arriving after that (and longer CR runs)
+             "x\r\r\ny", "<pre>x\r\r\ny</pre>", "a\r\r\r\nb", "\r\r\n", "<p>one\r\r\ntwo</b>", "a\rbc\r\nd", "\r\r\r", "<!--\r\r\n-->x</y>"]
     texts += [(t, "fixed") for t in fixed]
     # long texts: real chunk boundaries at the default chunk size
     for i in range(ctx.scale(3, 30)):
